@@ -3,13 +3,17 @@ package main
 import (
 	"context"
 	"errors"
+	"fmt"
 	"io"
+	"strings"
 	"sync"
 	"time"
 
 	"github.com/prometheus/prometheus/model/labels"
 	"google.golang.org/grpc"
+	"google.golang.org/grpc/codes"
 	"google.golang.org/grpc/metadata"
+	"google.golang.org/grpc/status"
 
 	"github.com/thanos-io/thanos/pkg/info/infopb"
 	"github.com/thanos-io/thanos/pkg/store/labelpb"
@@ -32,7 +36,8 @@ type fakeClient struct {
 	frames    []*storepb.SeriesResponse
 	jitter    uint64 // != 0: Recv sleeps 0-300µs, derived from this seed and the frame index (schedule variation)
 	openErr   error
-	recvErrAt int // >= 0: the Recv after that many delivered frames fails with errInjected
+	recvErrAt int // >= 0: the Recv after that many delivered frames fails with recvErr (errInjected when nil)
+	recvErr   error
 	hangAt    int // >= 0: the Recv after that many delivered frames blocks until the context ends
 
 	mu      sync.Mutex
@@ -42,6 +47,34 @@ type fakeClient struct {
 
 var errInjected = errors.New("injected failure")
 var errOpen = errors.New("injected open failure")
+
+// eofLike is an error type that is not io.EOF and wraps nothing, but claims Is(io.EOF).
+type eofLike struct{ msg string }
+
+func (e eofLike) Error() string        { return e.msg + " (eof-like)" }
+func (e eofLike) Is(target error) bool { return target == io.EOF }
+
+func isErrKind(k byte) bool { return strings.IndexByte("pgduwce", k) >= 0 }
+
+// kindErr is the error value of a scripted failure: p plain, g gRPC status, d context deadline,
+// u io.ErrUnexpectedEOF, w wraps io.EOF with %w, c custom type with Is(io.EOF), e io.EOF itself.
+func kindErr(kind byte, base string) error {
+	switch kind {
+	case 'g':
+		return status.Error(codes.Unavailable, base)
+	case 'd':
+		return context.DeadlineExceeded
+	case 'u':
+		return io.ErrUnexpectedEOF
+	case 'w':
+		return fmt.Errorf("%s: %w", base, io.EOF)
+	case 'c':
+		return eofLike{base}
+	case 'e':
+		return io.EOF
+	}
+	return errors.New(base)
+}
 
 func (c *fakeClient) LabelSets() []labels.Labels                 { return c.extSets }
 func (c *fakeClient) TimeRange() (int64, int64)                  { return c.mint, c.maxt }
@@ -67,7 +100,7 @@ func (c *fakeClient) Series(ctx context.Context, in *storepb.SeriesRequest, _ ..
 	for i, f := range c.frames {
 		fr[i] = copyFrame(f)
 	}
-	return &fakeSeriesClient{ctx: ctx, frames: fr, recvErrAt: c.recvErrAt, hangAt: c.hangAt, jitter: c.jitter}, nil
+	return &fakeSeriesClient{ctx: ctx, frames: fr, recvErrAt: c.recvErrAt, recvErr: c.recvErr, hangAt: c.hangAt, jitter: c.jitter}, nil
 }
 
 func copySeries(s *storepb.Series) *storepb.Series {
@@ -96,6 +129,7 @@ type fakeSeriesClient struct {
 	frames    []*storepb.SeriesResponse
 	i         int
 	recvErrAt int
+	recvErr   error
 	hangAt    int
 	jitter    uint64
 }
@@ -110,6 +144,9 @@ func (c *fakeSeriesClient) Recv() (*storepb.SeriesResponse, error) {
 		return nil, c.ctx.Err()
 	}
 	if c.recvErrAt >= 0 && c.i == c.recvErrAt {
+		if c.recvErr != nil {
+			return nil, c.recvErr
+		}
 		return nil, errInjected
 	}
 	if err := c.ctx.Err(); err != nil {
